@@ -95,7 +95,7 @@ class HelpersContent:
         f = self.file
         m = one(self.items, 'mod', 'restrictions')
         open_container(out, m, f, '    use vstd::prelude::*;\n    use crate::stdspec::{is_numeral, int_of};\n'
-                                  '    broadcast use {crate::ax::rc_clone_eq, crate::ax::parse_i32, crate::ax::string_peq, crate::ax::try_from_i32_obeys,\n        crate::ax::try_from_i32_i8, crate::ax::try_from_i32_u8, crate::ax::try_from_i32_i16, crate::ax::try_from_i32_u16,\n        crate::ax::try_from_i32_u32, crate::ax::try_from_i32_i64, crate::ax::try_from_i32_u64};')
+                                  '    broadcast use {crate::ax::rc_clone_eq, crate::ax::parse_i32, crate::ax::parse_i64, crate::ax::parse_i128, crate::ax::string_peq, crate::ax::try_from_i32_obeys,\n        crate::ax::try_from_i32_i8, crate::ax::try_from_i32_u8, crate::ax::try_from_i32_i16, crate::ax::try_from_i32_u16,\n        crate::ax::try_from_i32_u32, crate::ax::try_from_i32_i64, crate::ax::try_from_i32_u64,\n        crate::ax::from_i128_obeys, crate::ax::from_i128_u8, crate::ax::from_i128_u16, crate::ax::from_i128_u32, crate::ax::from_i128_u64};')
         emit_uses(out, m, f)
         emit_verbatim(out, child(m, 'struct', 'Restrictions'), f)
         out.spec(sec('R_spec.rs', 'restrictions-spec'))
@@ -129,6 +129,19 @@ class HelpersContent:
         impl(r'< C > CheckRestrictions for Option < C > where C : CheckRestrictions', 'restrictions::Option<C>::check_restrictions',
              'option-spec-members')
         impl(r'CheckRestrictions for i32', 'restrictions::i32::check_restrictions', 'int-spec-members')
+        # ---- shared numeric comparison helper (present since the `fix:` that widened the integer carriers)
+        cb = [c for c in m.children if c.kind == 'fn' and c.name == 'check_bounds']
+        if cb:
+            splice_fn(out, cb[0], f, 'restrictions::check_bounds',
+                      ensures=[('accepts-valid', 'num_ok(value as int, *restrictions) ==> res is Ok'),
+                               ('rejects-invalid', '!num_ok(value as int, *restrictions) ==> res is Err')],
+                      origin={'accepts-valid': 'property', 'rejects-invalid': 'property'}, probe=probe, record=record)
+        # any other free function of the module has no contract here: emitted verbatim so the text still
+        # compiles, and recorded so that a failed proof is reported as inconclusive, not as a violation
+        for c in m.children:
+            if c.kind == 'fn' and c.name != 'check_bounds':
+                emit_verbatim(out, c, f)
+                out.uncontracted.append(f'{f}: fn {c.name} (line {c.line_span[0]})')
         # ---- macro instances: textual substitution of $t in the macro body, one impl per listed type
         mac = child(m, 'macro_rules', INT_CARRIERS_MACRO)
         call = child(m, 'macro_call', INT_CARRIERS_MACRO)
